@@ -87,7 +87,8 @@ class Spec:
     def __init__(self, qual, params, returns="none", requires=(), ensures=(), aux=(), raises=None,
                  modifies=(), loops=None, inline=False, locals=None, pure=False, hints=(),
                  trusted=False, fresh=(), cases=None, at=None, ghost=None, ghost_calls=None, reveal=(), bind=None, decreases=None,
-                 region=None, let=None, abstract=None, negative_indices=False):
+                 region=None, let=None, abstract=None, negative_indices=False,
+                 frame_axiom=False):
         self.qual = qual
         self.params = params            # ordered dict name -> kind text
         self.returns = returns
@@ -107,6 +108,7 @@ class Spec:
         self.ghost_calls = ghost_calls or {}   # callee short name -> {ghost param -> expression in the caller}
         self.cases = cases
         self.negative_indices = negative_indices
+        self.frame_axiom = frame_axiom  # encode `fresh` classes by a quantified frame axiom instead of a lambda term
         self.region = region            # (first statement text, statement text to stop before | None): verify this slice
         self.let = let or {}            # region inputs defined by an expression over the other inputs
         self.abstract = abstract or {}  # function-valued input -> name of an uninterpreted function (its axioms via reg.axioms)
@@ -154,6 +156,17 @@ class Registry:
         fi = FuncInfo("harness", None, name, node, "specs (proof harness)")
         fi.qual = "harness:" + name
         self.index.funcs[fi.qual] = fi
+        return fi
+
+    def add_stub(self, cls, name, params):
+        """A method the class inherits from a built-in type (dict.__len__ of priority_dict): a body-less FuncInfo so
+        that a TRUSTED contract can be attached to it."""
+        import ast as _ast
+        from .extract import FuncInfo
+        node = _ast.parse("def %s(%s):\n    pass\n" % (name, ", ".join(params))).body[0]
+        fi = FuncInfo(self.index.classes.get(cls, "builtins"), cls, name, node, "(inherited built-in method)")
+        self.index.funcs[fi.qual] = fi
+        self.index.by_short.setdefault(fi.short, []).append(fi)
         return fi
 
     def field(self, cls, name, kind):
@@ -980,13 +993,19 @@ class Executor:
                 olda = sub.heap_arrays(post, cls, field)
                 r = z3.Int(uid("fr"))
                 # objects of a `fresh` class that existed before the call keep the field; only objects allocated by
-                # the call may differ.  Encoded as a new array with a frame axiom (instantiated by reads of the new
-                # array) rather than as a lambda term, which keeps later terms small.
-                newa = [z3.Const(uid("H_%s_%s" % (cls, field)), o.sort()) for o in olda]
-                for o, nw in zip(olda, newa):
-                    self.ctx.assume(st, z3.ForAll([r], implies(r < a0.terms[0], z3.Select(nw, r) == z3.Select(o, r)),
-                                                  patterns=[z3.Select(nw, r)]))
-                post.heap[(cls, field)] = newa
+                # the call may differ (lambda term; measured better than a quantified frame axiom on C15 / C17)
+                if getattr(spec, "frame_axiom", False):
+                    # alternative encoding (per contract): a new array with a quantified frame axiom
+                    newa = [z3.Const(uid("H_%s_%s" % (cls, field)), o.sort()) for o in olda]
+                    for o, nw in zip(olda, newa):
+                        self.ctx.assume(st, z3.ForAll([r], implies(r < a0.terms[0], z3.Select(nw, r) == z3.Select(o, r)),
+                                                      patterns=[z3.Select(nw, r)]))
+                    post.heap[(cls, field)] = newa
+                    continue
+                post.heap[(cls, field)] = [
+                    z3.Lambda([r], z3.If(r < a0.terms[0], z3.Select(o, r),
+                                         z3.Select(z3.Const(uid("H_%s_%s" % (cls, field)), o.sort()), r)))
+                    for o in olda]
         rk = self.kind_of(spec.returns)
         res = fresh(rk, "ret_" + fi.name)
         for fact in basic_facts(res):
